@@ -3,6 +3,7 @@ package main
 import (
 	"encoding/json"
 	"fmt"
+	"net"
 	"os"
 	"runtime"
 	"strings"
@@ -36,6 +37,8 @@ type scenario struct {
 	closeErr bool
 	// the exit callback takes a moment
 	slowExit bool
+	// WithAccMaxRetry of the server (0: 100)
+	amax int
 }
 
 // what the slow-drain class measured about its own timing
@@ -48,6 +51,8 @@ type timing struct {
 
 type phaseRec struct {
 	par      bool
+	loop     bool
+	maxfails int
 	issued   []label
 	resolved []label
 	obs      obsAll
@@ -64,6 +69,8 @@ const farTimeout = time.Hour
 const settleLimit = 10 * time.Second
 const settleLimitLater = 1500 * time.Millisecond
 const maxMismatches = 12
+
+var lastAborted string // the last scenario could not be set up as intended (descriptor table): it is dropped
 
 var pollStats struct {
 	phases, polls int
@@ -111,7 +118,13 @@ func runScenarioT(sc scenario) ([]phaseRec, string, timing) {
 		dog = startWatchdog()
 	}
 	note := ""
-	t := stM{maxc: 0}
+	amax := sc.amax
+	if amax == 0 {
+		amax = 100
+	}
+	w.amax = amax
+	lastAborted = ""
+	t := stM{maxc: 0, amax: amax}
 	if sc.maxc >= 0 {
 		t.maxc = sc.maxc
 		if err := w.startServer(int32(sc.maxc)); err != nil {
@@ -127,6 +140,8 @@ func runScenarioT(sc scenario) ([]phaseRec, string, timing) {
 		issued := make([]label, len(ph))
 		copy(issued, ph)
 		diverged := false
+		w.phaseT0 = time.Now()
+		w.fdUsed = w.plug.active
 		if sc.pace > 0 && k == 1 {
 			tFirst = time.Now()
 		}
@@ -252,6 +267,12 @@ func runScenarioT(sc scenario) ([]phaseRec, string, timing) {
 			return false
 		})
 		rec.waited = time.Since(t0)
+		rec.loop = last.Loop
+		rec.maxfails = w.maxFails() // read after the state was observed: the later, the larger, the weaker - never too small
+		if w.aborted != "" {
+			lastAborted = w.aborted
+			break
+		}
 		pollStats.phases++
 		if rec.waited > pollStats.maxWait {
 			pollStats.maxWait = rec.waited
@@ -340,6 +361,7 @@ func caseOf(sc scenario, recs []phaseRec, note string) vh.Case {
 	type jp struct {
 		Issued     []string `json:"issued"`
 		Concurrent bool     `json:"issued_concurrently,omitempty"`
+		MaxFails   int      `json:"accept_failures_possible_in_the_time,omitempty"`
 		Observed   obsAll   `json:"observed"`
 		Matched    bool     `json:"model_agrees"`
 	}
@@ -347,7 +369,7 @@ func caseOf(sc scenario, recs []phaseRec, note string) vh.Case {
 	nontrivial := false
 	var replay [][]label
 	for i, r := range recs {
-		ph[i] = fmt.Sprintf("mkPh %s %s %s %s", vh.CoqBool(r.par), coqLabels(r.issued), coqLabels(r.resolved), r.obs.coq())
+		ph[i] = fmt.Sprintf("mkPh %s %s %s %s %d%%nat %s", vh.CoqBool(r.par), coqLabels(r.issued), coqLabels(r.resolved), vh.CoqBool(r.loop), r.maxfails, r.obs.coq())
 		is := make([]string, len(r.issued))
 		for j, l := range r.issued {
 			is[j] = l.String()
@@ -355,7 +377,7 @@ func caseOf(sc scenario, recs []phaseRec, note string) vh.Case {
 		for j := range r.obs.Sess {
 			r.obs.Sess[j].InboxS = fmt.Sprintf("%v", r.obs.Sess[j].Inbox)
 		}
-		desc = append(desc, jp{Issued: is, Concurrent: r.par, Observed: r.obs, Matched: r.matched})
+		desc = append(desc, jp{Issued: is, Concurrent: r.par, Observed: r.obs, Matched: r.matched, MaxFails: r.maxfails})
 		for _, x := range r.obs.Sess {
 			if x.OnExit > 0 || (!x.Started && x.Closed) {
 				nontrivial = true
@@ -367,7 +389,11 @@ func caseOf(sc scenario, recs []phaseRec, note string) vh.Case {
 	if maxc < 0 {
 		maxc = 0
 	}
-	coq := fmt.Sprintf("mkCase %s %s", vh.CoqZ(maxc), vh.CoqList(ph))
+	amax := sc.amax
+	if amax == 0 {
+		amax = 100
+	}
+	coq := fmt.Sprintf("mkCase %s %d%%nat %s", vh.CoqZ(maxc), amax, vh.CoqList(ph))
 	d := map[string]interface{}{"class": sc.class, "maxConn": sc.maxc, "phases": desc}
 	if note != "" {
 		d["note"] = note
@@ -397,6 +423,8 @@ type jLabel struct {
 	F int    `json:"f,omitempty"`
 	N bool   `json:"n,omitempty"`
 	P bool   `json:"p,omitempty"`
+	H int    `json:"h,omitempty"`
+	W bool   `json:"w,omitempty"`
 }
 type jScenario struct {
 	Class string     `json:"class"`
@@ -410,14 +438,15 @@ type jScenario struct {
 	SAmp  int        `json:"samp,omitempty"`
 	CErr  bool       `json:"cerr,omitempty"`
 	SExit bool       `json:"sexit,omitempty"`
+	AMax  int        `json:"amax,omitempty"`
 }
 
 func encodeReplay(sc scenario, phases [][]label) string {
-	j := jScenario{Class: sc.class, Maxc: sc.maxc, RT: int64(sc.readTO), WT: int64(sc.writeTO), Pace: int64(sc.pace), Chunk: sc.chunk, Amp: sc.amp, SAmp: sc.sendAmp, CErr: sc.closeErr, SExit: sc.slowExit}
+	j := jScenario{Class: sc.class, Maxc: sc.maxc, RT: int64(sc.readTO), WT: int64(sc.writeTO), Pace: int64(sc.pace), Chunk: sc.chunk, Amp: sc.amp, SAmp: sc.sendAmp, CErr: sc.closeErr, SExit: sc.slowExit, AMax: sc.amax}
 	for _, p := range phases {
 		var q []jLabel
 		for _, l := range p {
-			q = append(q, jLabel{K: l.kind, I: l.i, T: l.tr, R: l.reads, B: l.bs, F: l.k, N: l.natural, P: l.par})
+			q = append(q, jLabel{K: l.kind, I: l.i, T: l.tr, R: l.reads, B: l.bs, F: l.k, N: l.natural, P: l.par, H: l.h, W: l.waitRetry})
 		}
 		j.Ph = append(j.Ph, q)
 	}
@@ -434,22 +463,30 @@ func decodeReplay(s string) (scenario, error) {
 	for _, p := range j.Ph {
 		var q []label
 		for _, l := range p {
-			q = append(q, label{kind: l.K, i: l.I, tr: l.T, reads: l.R, bs: l.B, k: l.F, natural: l.N, par: l.P})
+			q = append(q, label{kind: l.K, i: l.I, tr: l.T, reads: l.R, bs: l.B, k: l.F, natural: l.N, par: l.P, h: l.H, waitRetry: l.W})
 		}
 		phases = append(phases, q)
 	}
 	return scenario{class: j.Class, maxc: j.Maxc, readTO: time.Duration(j.RT), writeTO: time.Duration(j.WT), strategy: staticStrategy(phases),
-		pace: time.Duration(j.Pace), chunk: j.Chunk, amp: j.Amp, sendAmp: j.SAmp, closeErr: j.CErr, slowExit: j.SExit}, nil
+		pace: time.Duration(j.Pace), chunk: j.Chunk, amp: j.Amp, sendAmp: j.SAmp, closeErr: j.CErr, slowExit: j.SExit, amax: j.AMax}, nil
 }
 
 func main() {
 	vh.Main("c16", func(e *vh.Env) {
-		timingDropped, timingRetries := 0, 0
+		timingDropped, timingRetries, setupDropped := 0, 0, 0
 		generated, emitted, planned := 0, 0, 0
 		emit := func(sc scenario) {
 			generated++
 			if sc.pace == 0 {
+				before := pollStats.mismatches
 				recs, note := runScenario(sc)
+				if lastAborted != "" {
+					pollStats.mismatches = before
+					setupDropped++
+					generated--
+					planned--
+					return
+				}
 				e.Emit(caseOf(sc, recs, note))
 				emitted++
 				return
@@ -490,6 +527,7 @@ func main() {
 			return
 		}
 		t0 := time.Now()
+		exerciseServerAPI(e)
 		reps := 1
 		if e.Search && e.Focus != "" && e.Focus != "walk" && e.Focus != "multi" && !strings.HasPrefix(e.Focus, "accept/") {
 			reps = 12 // the violation search repeats the diverging class: racing bursts need several attempts
@@ -518,9 +556,10 @@ func main() {
 		if _, stopped := e.Meta["stopped_early"]; stopped || emitted*2 < planned-timingDropped {
 			why := fmt.Sprintf("the harness emitted %d cases for %d planned scenarios (stopped early: %v; %d scenarios without agreement, %d of them without established quiescence)",
 				emitted, planned, stopped, pollStats.mismatches, pollStats.notQuiescent)
-			e.Emit(vh.Case{Coq: "mkCase 0%Z [mkPh false [] [On 999 SendStep] (0%Z, [])]", Class: "harness-degenerate", Nontrivial: false,
+			e.Emit(vh.Case{Coq: "mkCase 0%Z 0%nat [mkPh false [] [On 999 SendStep] true 0%nat (0%Z, [])]", Class: "harness-degenerate", Nontrivial: false,
 				Desc: map[string]interface{}{"class": "harness-degenerate", "why": why}})
 		}
+		e.Meta["accept_error_setup_not_established"] = setupDropped
 		e.Meta["slow_drain_timing_not_established"] = timingDropped
 		e.Meta["slow_drain_retries"] = timingRetries
 		e.Meta["phases"] = pollStats.phases
@@ -528,4 +567,33 @@ func main() {
 		e.Meta["longest_wait_for_quiescence_ms"] = float64(pollStats.maxWait.Microseconds()) / 1000
 		e.Meta["go_run_s"] = time.Since(t0).Seconds()
 	})
+}
+
+// exerciseServerAPI runs the parts of srv.go that have no place in a scenario: NewTCPSrvX, Address, and LoopStart's
+// failure when the address cannot be listened on (an impossible port; a port that is taken).  Nothing here is a case:
+// a deviation is a harness failure (the driver reports the tie as broken).
+func exerciseServerAPI(e *vh.Env) {
+	w := newWorld(farTimeout, farTimeout)
+	bad := stcp.NewTCPSrvX("127.0.0.1:99999", w.h, stcp.WithReadTimeout(farTimeout))
+	if bad.Address() != "127.0.0.1:99999" {
+		panic("c16: Server.Address does not return the configured address")
+	}
+	if err := bad.LoopStart(stcp.WithMaxConn(1)); err == nil {
+		panic("c16: LoopStart on an impossible port returned nil")
+	}
+	l, err := net.Listen("tcp", "127.0.0.1:0")
+	if err != nil {
+		panic(err)
+	}
+	defer l.Close()
+	taken := stcp.NewTCPSrvX(l.Addr().String(), w.h)
+	select {
+	case err := <-taken.Start(stcp.WithMaxConn(1)):
+		if err == nil {
+			panic("c16: Start on a taken port delivered a nil error")
+		}
+	case <-time.After(10 * time.Second):
+		panic("c16: Start on a taken port did not report the listen error")
+	}
+	e.Meta["server_api_exercised"] = "NewTCPSrvX, Address, LoopStart/Start listen errors (impossible port, taken port)"
 }
